@@ -7,7 +7,10 @@
 (* width 8, nightly i686-pc-windows-msvc for width 4) in every run; a      *)
 (* disagreement there is a tool error, never a pyxis violation.            *)
 (*                                                                         *)
-(* crate = [ptr, files : set of emitted files, exts : path -> [size,align]]*)
+(* crate = [ptr, files : set of emitted files, exts : path -> [size,align], *)
+(*          real : sequence of layouts [path, size, align, offs] measured by *)
+(*                 a real compiler (empty in the model; in trace validation  *)
+(*                 the measured layout of an item takes precedence)]         *)
 (***************************************************************************)
 EXTENDS Emit
 
@@ -55,7 +58,9 @@ ReprCFold(crate, fields, packed, cur, maxal, acc, fuel) ==
 
 RustItem(crate, p, fuel) ==
   LET it == CrateItemAt(crate, p)
-  IN IF fuel = 0 \/ it.k = "none" THEN NoLayout
+      ri == FirstIdx(crate.real, LAMBDA r : r.path = p)
+  IN IF ri # 0 THEN [size |-> crate.real[ri].size, align |-> crate.real[ri].align, offs |-> crate.real[ri].offs]
+     ELSE IF fuel = 0 \/ it.k = "none" THEN NoLayout
      ELSE IF it.k = "enum" THEN
        LET t == RustTy(crate, it.repr, fuel - 1)
        IN [size |-> t.size, align |-> t.align, offs |-> <<>>]
